@@ -191,6 +191,18 @@ class UInterp(mirsym.Interp):
             return cont(st, Opaque('unit'))
         if n.endswith('mem::forget'):
             return cont(st, Opaque('unit'))
+        if n.endswith('needs_drop'):
+            known = st.mem.get(('TYPEPROP', 'needs_drop'))
+            for val in ((True, False) if known is None else (known,)):
+                st2 = st.clone() if known is None else st
+                st2.mem[('TYPEPROP', 'needs_drop')] = val
+                if known is None:
+                    st2.trace.append(f'payload type {"needs" if val else "does not need"} drop')
+                try:
+                    cont(st2, val)
+                except PathEnd as e:
+                    s.paths.append((st2, ('end', e.why)))
+            return
         if n.endswith('ManuallyDrop::drop'):
             # drops the wrapped value in place: its type is the generic argument of the call
             ty = s.generic_arg(getattr(s, '_raw_callee', ''))
